@@ -61,9 +61,9 @@ def ensure_overrides():
         raise Infra("javac failed: " + r.stderr)
 
 
-def build_harness(race=False, pkg=".", name="harness"):
+def build_harness(race=False, pkg=".", name="harness", goarch=None):
     """go build the harness against REPO's current working tree, hooks enabled."""
-    out = os.path.join(scratch("verif-bin-"), name)
+    out = os.path.join(scratch("verif-bin-"), name + (goarch or ""))
     hdir = os.path.join(V, "harness")
     work = hdir
     if REPO != "/repo":  # self-test against a scratch copy: private module copy with its own replace
@@ -76,7 +76,7 @@ def build_harness(race=False, pkg=".", name="harness"):
     except OSError:
         pass
     cmd = ["go", "build", "-tags", "verif"] + (["-race"] if race else []) + ["-o", out, pkg]
-    r = subprocess.run(cmd, cwd=work, env=GOENV, capture_output=True, text=True)
+    r = subprocess.run(cmd, cwd=work, env=dict(GOENV, GOARCH=goarch, CGO_ENABLED="0") if goarch else GOENV, capture_output=True, text=True)
     if r.returncode != 0:
         raise Infra("harness build failed (does /repo compile with -tags verif?):\n" + r.stderr[-3000:])
     return out
@@ -201,7 +201,8 @@ def _validate_shard(lines, lo, hi, props, idx, timeout):
     rc, out, wall = tlc(d, "Trace.tla", cfg, workers=1, timeout=timeout, xmx="2g", env_extra={"TLC_JVM": "shard"})
     m = re.search(r'<<"VERDICT", "(.*)">>', out)
     if not m:
-        raise Infra("trace validation produced no verdict (shard %d, lines %d..%d, rc=%d):\n%s" % (idx, lo + 1, hi, rc, out[-3000:]))
+        k = out.find("Error:")
+        raise Infra("trace validation produced no verdict (shard %d, lines %d..%d, rc=%d):\n%s\n...\n%s" % (idx, lo + 1, hi, rc, out[max(k, 0):max(k, 0) + 1500] if k >= 0 else "", out[-600:]))
     v = json.loads(json.loads('"' + m.group(1) + '"'))
     if v["lines"] != hi - lo:
         raise Infra("trace validation consumed %d of %d lines (shard %d)" % (v["lines"], hi - lo, idx))
